@@ -134,10 +134,12 @@ Section Safety.
     - inv_step Hstep; simp_upd; lia.
     - destruct (i_commit_bounds V n H3 i) as (_ & Hb).
       destruct (step_log_cases V n l n' i Hstep)
-        as [(e & ->)|(T & ldr & prev & pt & ents & lc & Hae & HT & HT' & Hpt & Hta)].
+        as [(e & ->)|[(T & ldr & prev & pt & ents & lc & Hae & HT & HT' & Hpt & Hta)
+                     |(m & -> & Hm & _)]].
       + now apply agree_app_l.
       + subst T pt.
         now destruct (handle_ae_hcommit V n i ldr prev ents lc _ H1 H2 H3 Hae Hta).
+      + now apply agree_firstn.
   Qed.
 
   Lemma hcommit_steps n ls n' i :
@@ -280,8 +282,10 @@ Section Safety.
         [left; now apply Nat.eqb_eq in Ho | now right] end.
     - match type of H with (if ?c then _ else _) = _ => destruct c eqn:Hc; [|discriminate] end.
       injection H as <-. split_andb. apply SAHandleHB; auto using in_soup_In.
-    - destruct (Nat.leb_spec c (commit (nodes n i))); [|discriminate].
-      injection H as <-. now apply SARestart.
+    - match type of H with (if ?c then _ else _) = _ => destruct c eqn:Hc; [|discriminate] end.
+      injection H as <-. apply SASelfAck; auto using role_eqb_eq.
+    - match type of H with (if ?c then _ else _) = _ => destruct c eqn:Hc; [|discriminate] end.
+      injection H as <-. split_andb. now apply SARestart.
   Qed.
 
   Theorem run_sound ls : forall n n', run V n ls = Some n' -> steps n ls n'.
